@@ -68,6 +68,14 @@ func prisonRun() {
 			"AccessDictSize": 64, "PrisonDictSize": 64,
 		}}
 	}
+	// a product of its own for the warm-up call (first-call costs must not fall into a schedule)
+	conf["warm"] = []interface{}{map[string]interface{}{
+		"Name": "warm", "Cond": "default_t()",
+		"AccessSignConf": map[string]interface{}{"Header": []string{"X-Key"}},
+		"Action":         map[string]interface{}{"Cmd": "CLOSE", "Params": []string{}},
+		"CheckPeriod":    1, "StayPeriod": 1, "Threshold": 1000,
+		"AccessDictSize": 8, "PrisonDictSize": 8,
+	}}
 	m := mod_prison.NewModulePrison()
 	mi, err := newMod(m, "[basic]\nProductRulePath = mod_prison/prison.data\n", "mod_prison/prison.data", emptyRules)
 	if err != nil {
@@ -90,6 +98,15 @@ func prisonRun() {
 			panic("harness: rule not found after load: " + name)
 		}
 		c.CpUs, c.SpUs = cpNs/1000, spNs/1000
+	}
+
+	for i := 0; i < 50; i++ {
+		req, err := mkReq("GET", "origin", "a.example.com", "/x", "", [][2]string{{"X-Key", "w"}})
+		if err != nil {
+			panic("harness: " + err.Error())
+		}
+		req.Route.Product = "warm"
+		mi.request(bfe_module.HandleFoundProduct, req)
 	}
 
 	out := make([][]prisonEv, len(cases))
